@@ -1,7 +1,7 @@
 (* Line-protocol driver around the extracted C18 ownership model (model.ml).
    One command per input line, one result per output line.
 
-   run <T|F seekable> <event> ...   events:
+   run <T|F|A: the stream answers seekable() with True | with False | has no seekable attribute> <position> <event> ...   events:
      O<r|w|a><T|F closefd><T|F read_evlrs>:<outcome>:<offset>,<count>,<psize>,<minor>,<nevlrs>,<evlr_start>,<evlr_bytes>,<size>
      P<n>  S<pos>:<whence>  A (read)  Q (.point_source)  W (write/append points)  Bl | Bo (with-body raises Laspy / other)
      X (exit)  C (close)  D<outcome> (LasData.write)  L<T|F closefd>:<outcome>:<finfo> (laspy.read)  Z (caller rewinds)
@@ -36,6 +36,7 @@ let bool_of_tok s = (s = "T")
 let bool_of_char c = (c = 'T')
 let tok_of_bool b = if b then "T" else "F"
 
+let cap_of_tok = function "T" -> CapYes | "F" -> CapNo | "A" -> CapAbsent | s -> failwith ("seekability " ^ s)
 let outcome_of = function
   | "ok" -> OOk | "empty" -> OEmpty | "badsig" -> OBadSig | "trunc" -> OTruncated | "badvlr" -> OBadVlr
   | "incompat" -> OIncompat | s -> failwith ("outcome " ^ s)
@@ -82,9 +83,9 @@ let tok_of_obs o = String.concat ":" [tok_of_how o.o_how; tok_of_bool o.o_closef
 let dispatch cmd a =
   match cmd with
   | "run" ->
-    (* run <seekable T/F> <position of the stream when laspy first gets it> <events> *)
+    (* run <seekability T/F/A> <position of the stream when laspy first gets it> <events> *)
     let evs = List.map event_of (Array.to_list (Array.sub a 2 (Array.length a - 2))) in
-    let tr = trace (init_at (bool_of_tok a.(0)) (z_of_string a.(1))) evs in
+    let tr = trace (init_at (cap_of_tok a.(0)) (z_of_string a.(1))) evs in
     let last = List.fold_left (fun _ (_, t) -> Some t) None tr in
     let log = match last with Some t -> t.st_log | None -> [] in
     String.concat " " (List.map (fun (r, t) ->
